@@ -432,6 +432,13 @@ func (m *Monitor) onResponse(to string, msg *stun.Message, raw []byte, now int64
 	r.Answered = true
 	m.doneReqs++
 	I := ivl{r.TRecv, now}
+	if now > r.TRecv {
+		// the credentials were checked at some instant of the handling interval: a nonce that
+		// crosses its hour in between is undecided
+		if a2, _, _ := m.authentic(r.Msg, now); a2 != r.Auth && (r.Auth > 0 || r.AuthWhy == "stale-nonce" || a2 > 0) {
+			r.Auth = 0
+		}
+	}
 	ok := msg.Type.Class == stun.ClassSuccessResponse
 	code := 0
 	if !ok {
